@@ -90,8 +90,8 @@ harnesses! {
     #[kani::stub(realfft::RealFftPlanner::<f64>::plan_fft_forward, crate::stubs::plan_fwd)]
     #[kani::stub(realfft::RealFftPlanner::<f64>::plan_fft_inverse, crate::stubs::plan_inv)]
     #[kani::stub(rubato::sinc::make_sincs, crate::stubs::make_sincs_unit)]
-    fn c07_fto_2_3_2_1(nd) {
-        let mut r = FftFixedOut::<f64>::new(2, 3, 2, 1, 1).unwrap();
+    fn c07_fto_2_3_1_1(nd) {
+        let mut r = FftFixedOut::<f64>::new(2, 3, 1, 1, 1).unwrap();
         // FFT block on the input side by the documented sizing rule (smallest multiple of
         // rate/gcd covering chunk/sub_chunks)
         let block_in: usize = 2;
